@@ -441,6 +441,9 @@ func simplify(op string, sort *Sort, a []*Term) *Term {
 		return nil
 	case "select":
 		arr, idx := a[0], a[1]
+		if arr.Op == "ite" && idx.IsInt() {
+			return Ite(arr.Args[0], App("select", sort, arr.Args[1], idx), App("select", sort, arr.Args[2], idx))
+		}
 		for {
 			if arr.Op == "store" {
 				si := arr.Args[1]
@@ -595,9 +598,33 @@ func Subst(t *Term, m map[*Term]*Term) *Term {
 
 // ---------- printing ----------
 
+// String renders a term for messages; deep terms are cut off (a tree print of a shared DAG can be exponential).
 func (t *Term) String() string {
 	var b strings.Builder
-	printTerm(&b, t, nil)
+	var rec func(t *Term, depth int)
+	rec = func(t *Term, depth int) {
+		if b.Len() > 4000 {
+			return
+		}
+		if len(t.Args) == 0 || depth > 8 {
+			if len(t.Args) == 0 {
+				printTerm(&b, t, nil)
+			} else {
+				b.WriteString("(" + t.Op + " …)")
+			}
+			return
+		}
+		b.WriteString("(" + t.Op)
+		if t.Name != "" {
+			b.WriteString(":" + t.Name)
+		}
+		for _, a := range t.Args {
+			b.WriteByte(' ')
+			rec(a, depth+1)
+		}
+		b.WriteByte(')')
+	}
+	rec(t, 0)
 	return b.String()
 }
 
